@@ -11,7 +11,7 @@ import (
 func init() {
 	Register(&PropDef{
 		ID: "C03", QuickRuns: 2400, Level: "exploration",
-		Rule: "one run = seeded history of establishment / modification (create, update, remove of PDRs, FARs, QERs) / deletion / unknown-session and no-association requests over 1-4 sessions and 1-2 associations on the BESS datapath, optionally with kill -9 of the agent at a drawn scheduler step and restart against the populated datapath; after every accepted response the simulated BESS modules are compared with the reference image (classification of boundary-value packets around every live rule and every installed entry; exact FAR / QER entry sets). Non-trivial = at least one accepted session operation and at least one of {injected fault, statement-level pre-emption, >20 task switches}; distinct = different event skeleton (sequence of operation kinds, outcomes and fault kinds).",
+		Rule: "one run = seeded history of establishment / modification (create, update, remove of PDRs, FARs, QERs) / deletion / unknown-session and no-association requests over 1-4 sessions and 1-2 associations on the BESS datapath, optionally with kill -9 of the agent at a drawn scheduler step and restart against the populated datapath; after every accepted response the simulated BESS modules are compared with the reference image (classification of boundary-value packets around every live rule and every installed entry; exact FAR / QER entry sets). Non-trivial = at least one accepted session operation and at least one of {injected fault, statement-level pre-emption, >20 task switches}; distinct = different event skeleton (sequence of operation kinds, outcomes and fault kinds). Also: Association Setup repeated on a live association; a modification refused half-way followed by an accepted Update FAR restating the FAR.",
 		Assume: []string{"BESS module semantics as modelled (WildcardMatch upsert keyed by masked values+masks, highest priority wins; ExactMatch / Qos keyed by fields; delete of an absent key is an error reply)",
 			"valid generators stay inside the supported IPv4 envelope of DESIGN.md section 5.8", "datapath write failures and RPC latency beyond the join timeout are outside this property's quantifier"},
 		Real: CommonReal, Simulated: CommonSim,
